@@ -177,6 +177,17 @@ def run_unit(unit_dir, tier, relock=False, known_ids=()):
                 res['undecided'].append(a)
             elif a not in locked:
                 res['undecided'].append('new assumption not in ASSUMPTIONS.lock: ' + a)
+        # shape lock: the loop structure (number and kind of loops after the rewrites) each function had when its proof was written.
+        # Loop invariants are attached by loop ordinal; if a change adds, removes or converts a loop, a failed obligation in that
+        # function may be a missing / misplaced invariant and not the code => undecided, never an alarm
+        shape = {fn['path']: fn.get('loop_kinds', []) for fn in asm['fns'] if not fn['stub']}
+        slock = os.path.join(unit_dir, 'SHAPE.lock')
+        if relock:
+            json.dump(shape, open(slock, 'w'), indent=0, sort_keys=True)
+        locked_shape = json.load(open(slock)) if os.path.exists(slock) else {}
+        for fn in asm['fns']:
+            if not fn['stub'] and fn['path'] in locked_shape and locked_shape[fn['path']] != fn.get('loop_kinds', []):
+                fn['shape_changed'] = True
         if asm['info']['hints_dropped']:
             res['hints_dropped'] = asm['info']['hints_dropped']
         extra = []
@@ -337,11 +348,11 @@ def analyse(res, asm, r):
             oid = '%s::template@%s::%s' % (unit, org[1] if org[0] == 'tpl' else '?', kind)
         rec = {'obligation': oid, 'kind': kind, 'fn': fn['path'] if fn else None, 'message': detail,
                'line': pl, 'text': text.strip(), 'rendered': d.get('rendered', '')[:3000]}
-        if fn and (fn.get('inlined') or fn.get('anchors_lost')):
+        if fn and (fn.get('inlined') or fn.get('anchors_lost') or fn.get('shape_changed')):
             # the proof of this function was written for another shape of the code (a helper was inlined by R23 / a hint lost its
             # anchor): a failed obligation here may be the missing proof aid and not the code => undecided, never an alarm
             res['undecided'].append('obligation %s failed in %s, whose %s: not reported as a violation (%s)' % (
-                oid, fn['path'], 'helper calls were inlined (R23)' if fn.get('inlined') else 'proof hints lost their anchor', detail))
+                oid, fn['path'], 'helper calls were inlined (R23)' if fn.get('inlined') else ('loop structure differs from the one its invariants were written for (SHAPE.lock)' if fn.get('shape_changed') else 'proof hints lost their anchor'), detail))
             continue
         fails.append(rec)
     if js is None or vr is None:
